@@ -171,12 +171,13 @@ class QuadricTensor(ProjectiveTensor, ABC):
             p = -b[(*indices, slice(None), i)] / np.where(beta != 0, beta, -1)[..., None]
 
         else:
-            ind = np.indices((n, n))
-            ind = np.stack(
-                [np.delete(np.delete(ind, i, axis=1), i, axis=2) for i in combinations(range(n), n - 2)], axis=1
-            )
-            minors = det(self.array[..., ind[0], ind[1]])
-            p = csqrt(-minors)  # type: ignore[arg-type]
+            # the matrix of all 2x2 minors (second compound matrix) of e*f^T + f*e^T is -m*m^T, where m contains
+            # the entries of the skew symmetric matrix e*f^T - f*e^T, hence m can be recovered up to a common sign
+            r = np.array([sorted(set(range(n)) - set(c)) for c in combinations(range(n), n - 2)])
+            b = det(self.array[..., r[:, None, :, None], r[None, :, None, :]])
+            i = np.argmax(np.abs(np.diagonal(b, axis1=-2, axis2=-1)), axis=-1)
+            beta = csqrt(-b[(*indices, i, i)])
+            p = -b[(*indices, slice(None), i)] / np.where(beta != 0, beta, -1)[..., None]
 
         # use the skew symmetric matrix m to get a matrix of rank 1 defining the same quadric
         m = hat_matrix(p)
